@@ -7,7 +7,7 @@
 From Coq Require Import List ZArith Bool.
 From Coq Require Import Permutation Sorted.
 From TskVerif Require Import Base.Common C14.Model C14.Spec C14.Basics C14.SubsetMain
-     C14.SubsetCorollaries C14.SubsetIdentity C14.UnionProofs C14.UnionRows C14.SortProofs C14.UnionFull C14.UnionRefs C14.InverseProofs C14.InverseRows C14.GuardProofs C14.SortRemap C14.WrapperProofs C14.InverseRefs C14.CanonInvariance C14.CanonInds C14.Examples.
+     C14.SubsetCorollaries C14.SubsetIdentity C14.UnionProofs C14.UnionRows C14.SortProofs C14.UnionFull C14.UnionRefs C14.InverseProofs C14.InverseRows C14.GuardProofs C14.SortRemap C14.WrapperProofs C14.InverseRefs C14.CanonInvariance C14.CanonInds C14.Examples C14.Counts.
 Import ListNotations.
 Open Scope Z_scope.
 
@@ -466,3 +466,15 @@ Theorem first_nodes_rename : forall pi n ns,
   forall i, in_range n i = true ->
     first_nodes (map (rename_node_ind pi) ns) (pi i) = first_nodes ns i.
 Proof. exact first_nodes_rename_lemma. Qed.
+
+(* Row counts of subset: exactly one output node per requested node, never more edges than the
+   input (corollaries of subset_nodes_exact / subset_edges_exact). *)
+Theorem subset_node_count : forall t nodes ku ncp t',
+  refs_in_range t = true -> subset t nodes ku ncp = Ok t' ->
+  length (t_nodes t') = length nodes.
+Proof. exact subset_node_count_proof. Qed.
+
+Theorem subset_edge_count_le : forall t nodes ku ncp t',
+  refs_in_range t = true -> subset t nodes ku ncp = Ok t' ->
+  (length (t_edges t') <= length (t_edges t))%nat.
+Proof. exact subset_edge_count_le_proof. Qed.
